@@ -525,6 +525,7 @@ func runHistory(hc histCase, host string) (key, what string) {
 			req.Host = ""
 		}
 		urlBefore := req.URL.String()
+		hostBefore := req.Host
 		w.mu.Lock()
 		nSeen, nDial := len(w.seen), len(w.dials)
 		w.mu.Unlock()
@@ -558,6 +559,9 @@ func runHistory(hc histCase, host string) (key, what string) {
 		}
 		if req.URL.String() != urlBefore {
 			return "callers-request-modified", fmt.Sprintf("%s: the caller's request URL was changed to %s", tag, req.URL.String())
+		}
+		if req.Host != hostBefore {
+			return "callers-request-modified", fmt.Sprintf("%s: the caller's request had Host %q, after RoundTrip it has %q (a RoundTripper must not modify the request; sent again for another URL it would carry this Host)", tag, hostBefore, req.Host)
 		}
 		if len(newSeen) != 1 {
 			return "server-saw-wrong-number", fmt.Sprintf("%s: server saw %d requests", tag, len(newSeen))
@@ -663,7 +667,14 @@ func histories(r *ev.Run) {
 			s2 = append(s2, firstLiteralOrigin+i)
 		}
 		cases = append(cases, histCase{Zone: 0, Seq: s2})
+		if len(s2) <= 2 {
+			// an address-literal URL sent with a Host header of the caller's choosing (a virtual host on that address): the TLS
+			// identity is still the URL's (no server name for a literal), and the connection is the literal origin's own
+			cases = append(cases, histCase{Zone: 0, Seq: s2, HostOver: true})
+		}
 	})
+	// an address-literal URL with a Host override naming a REAL origin, then that origin itself: two origins, two connections
+	cases = append(cases, histCase{Zone: 1, Seq: []int{firstLiteralOrigin + 3, 0}, HostOver: true}, histCase{Zone: 0, Seq: []int{firstLiteralOrigin + 3, 0}, HostOver: true})
 	// a.example and a.example. (the same host, two URL authorities): every sequence of length <= 3 over the two spellings
 	for z := 0; z < 2; z++ {
 		enum.Sequences(2, 3, func(seq []int) {
